@@ -1202,6 +1202,19 @@ def fixed_scripts():
             ops.append(["clean", exprs, True, True, False])
         ops.append(["clean", sem_exprs[g], False, False, True])
         out.append(("semantics-%d" % (g // 3), {"arts": sem_arts, "ops": ops}))
+    # dangling-then-satisfied references: app is uploaded before its dependencies, a clean that deletes something runs in
+    # between, the dependencies arrive later while app's file is untouched; they must survive the next clean
+    out.append(("dangling-then-satisfied", {
+        "arts": [{"bid": C, "versions": [_v("base", "2019-01-01")]},
+                 {"bid": B, "versions": [_v("lib", "2020-01-01", dep(0, "build"))]},
+                 {"bid": A, "versions": [_v("app", "2021-01-01", dep(1, "build"))]},
+                 {"bid": "dd" * 20, "versions": [_v("junk", "2018-01-01")]}, {"bid": "ee" * 20, "versions": [_v("junk", "2018-02-01")]}],
+        "ops": [["add", 2, 0], ["add", 3, 0], ["clean", [_m(_cmp("meta.package", "==", "app"))], False, False, False],
+                ["add", 1, 0], ["add", 0, 0], ["add", 4, 0],
+                ["find", [_m(_cmp("meta.package", "==", "app"))], False],
+                ["clean", [_m(_cmp("meta.package", "==", "app"))], False, True, False],
+                ["clean", [_m(_cmp("meta.package", "==", "app"))], False, False, False],
+                ["clean", [_m(_cmp("meta.package", "==", "app"))], True, True, False]]}))
     # a replaced artifact is re-read
     out.append(("replaced-vars", {
         "arts": [{"bid": A, "versions": [_v("x", "2020-01-01"), _v("x", "2022-02-02")]}, {"bid": B, "versions": [_v("x", "2021-01-01")]}],
@@ -1244,6 +1257,47 @@ def gen_block_script(r):
     for b in blocked:
         ops.append(["unblock", b])
     ops.append(["clean", ex, True, False, False])
+    s["ops"] = ops
+    return s
+
+
+def gen_late_script(r):
+    """dangling-then-satisfied references: artifacts are uploaded before (some of) what they reference, commands run in
+    between, the referenced artifacts arrive later while the referencing files stay untouched"""
+    s = gen_script(r, n_ops=0)
+    arts = s["arts"]
+    n = len(arts)
+    # extra artifacts nobody references: something for `clean` to delete
+    for _ in range(r.randrange(1, 3)):
+        arts.append({"bid": hex20(r), "versions": [{"vars": gen_vars(r), "deps": {"args": [], "tools": {}, "sandbox": None, "via": "direct"}}]})
+    order = list(range(len(arts)))
+    # dependants first: higher indices reference lower ones
+    order.sort(key=lambda i: (-i if i < n else -r.randrange(n + 1)) + r.choice([0, 0, 0, 2, -2]))
+    absent = list(order)
+    ops = []
+
+    def selecting(i):
+        v = arts[i]["versions"][0]["vars"]
+        if "package" in v["meta"]:
+            return _m(_cmp("meta.package", "==", v["meta"]["package"]), r.choice([None, None, 1, 2]))
+        return _m(_cmp("build.nodename", "==", v["build"]["nodename"]), r.choice([None, 2]))
+    present = []
+    while absent:
+        for _ in range(r.randrange(1, 4)):
+            if absent:
+                i = absent.pop(0)
+                present.append(i)
+                ops.append(["add", i, 0])
+        for _ in range(r.randrange(1, 3)):
+            exprs = [selecting(r.choice(present))] + ([gen_expr(r, maxdepth=1)] if r.random() < 0.3 else [])
+            c = r.random()
+            if c < 0.25:
+                ops.append(["find", exprs, r.random() < 0.15])
+            elif c < 0.5:
+                ops.append(["clean", exprs, r.random() < 0.15, True, False])
+            else:
+                ops.append(["clean", exprs, False, False, False])
+    ops.append(["clean", [selecting(r.choice(range(len(arts))))], False, False, False])
     s["ops"] = ops
     return s
 
@@ -1308,6 +1362,8 @@ def malformed_worker(item):
 
 # the streams stop when less than this share of the time budget is left (the rest is needed by the later streams)
 T_HIST, T_MALFORMED, T_QUERY = 0.47, 0.37, 0.17
+# generated histories that run in any case (besides the fixed scripts), per kind
+MIN_LATE, MIN_HIST, MIN_ODD, MIN_BLOCK = 10, 10, 2, 2
 
 _STATE = {"traces": [], "queries": [], "shrunk": set()}
 
@@ -1338,38 +1394,47 @@ def run_sliced(ctx, fn, items, reserve, label, handle, always_first=False):
 def _report(ctx, res):
     """turn the findings of one history into violations (with the shrunk script as the replay case)"""
     seen = set()
+    fixed = res["kind"] == "script" and not str(res["subseed"]).startswith(("late-", "block-"))
     for f in res["findings"]:
         if f["signature"] in seen:
             continue
         seen.add(f["signature"])
         script = res["script"]
-        if f["signature"] not in _STATE["shrunk"] and len(_STATE["shrunk"]) < 3 and res["kind"] != "script" and ctx.time_left() > 0.4 * ctx.budget:
+        if f["signature"] not in _STATE["shrunk"] and len(_STATE["shrunk"]) < 3 and not fixed and ctx.time_left() > 0.4 * ctx.budget:
             # first occurrence of this failure class: minimise the history
             _STATE["shrunk"].add(f["signature"])
             script = shrink(script, f["signature"], os.path.join(ctx.tmp, "shrink-%d" % len(_STATE["shrunk"])), budget=12)
-        elif res["kind"] == "script":
+        elif fixed:
             _STATE["shrunk"].add(f["signature"])
         ctx.violation(f["what"], {"kind": "script", "script": script, "history": describe(script), "signature": f["signature"],
                                   "found_by": {"stream": res["kind"], "subseed": res["subseed"]}}, f["signature"])
 
 
 def oracle(ctx):
-    items = []
+    mandatory = []
     for name, s in fixed_scripts():
-        items.append(("script", name, os.path.join(ctx.tmp, "fixed-" + name), s))
+        mandatory.append(("script", name, os.path.join(ctx.tmp, "fixed-" + name), s))
     n_hist = ctx.scale(500, 3000)
     n_odd = ctx.scale(100, 600)
     n_block = ctx.scale(100, 600)
+    n_late = ctx.scale(150, 1200)
     hist = [("hist", ctx.subrng("hist", k).getrandbits(64), os.path.join(ctx.tmp, "h%d" % k), None) for k in range(n_hist)]
     odd = [("odd", ctx.subrng("odd", k).getrandbits(64), os.path.join(ctx.tmp, "o%d" % k), None) for k in range(n_odd)]
     block = [("script", "block-%d" % k, os.path.join(ctx.tmp, "b%d" % k),
               gen_block_script(random.Random(ctx.subrng("block", k).getrandbits(64)))) for k in range(n_block)]
+    late = [("script", "late-%d" % k, os.path.join(ctx.tmp, "l%d" % k),
+             gen_late_script(random.Random(ctx.subrng("late", k).getrandbits(64)))) for k in range(n_late)]
+    # the fixed scripts and a minimum of generated histories of every kind run whatever the machine load is
+    mandatory += late[:MIN_LATE] + hist[:MIN_HIST] + odd[:MIN_ODD] + block[:MIN_BLOCK]
+    late, hist, odd, block = late[MIN_LATE:], hist[MIN_HIST:], odd[MIN_ODD:], block[MIN_BLOCK:]
+    items = []
     # interleaved, so that a run that is cut short by the time budget has seen every kind
-    while hist or odd or block:
-        items.extend(hist[:5])
+    while hist or odd or block or late:
+        items.extend(hist[:4])
+        items.extend(late[:2])
         items.extend(odd[:1])
         items.extend(block[:1])
-        hist, odd, block = hist[5:], odd[1:], block[1:]
+        hist, late, odd, block = hist[4:], late[2:], odd[1:], block[1:]
 
     def handle_history(res):
         if res["error"]:
@@ -1392,7 +1457,11 @@ def oracle(ctx):
             tr.pop("pre_all", None)
             tr.pop("post_all", None)
         _STATE["traces"].append((res["kind"], res["subseed"], res["script"], res["traces"]))
-    run_sliced(ctx, history_worker, items, T_HIST, "oracle: histories", handle_history, always_first=True)
+    for res in ctx.parallel(history_worker, mandatory):      # no deadline
+        handle_history(res)
+    ctx.notes["mandatory_histories"] = len(mandatory)
+    ctx.notes["mandatory_s"] = round(ctx.budget - ctx.time_left(), 1)
+    run_sliced(ctx, history_worker, items, T_HIST, "oracle: histories", handle_history)
     # malformed artifacts
     mitems = [(ctx.subrng("malformed", k).getrandbits(64), os.path.join(ctx.tmp, "m%d" % k)) for k in range(ctx.scale(48, 800))]
 
